@@ -280,6 +280,23 @@ def compare(ref, cur, vocab, local_names, local_names_ref=frozenset()):
             out.append(('statement moved into or out of a loop or branch', '; '.join(
                 '%s (%s -> %s)' % (t[:80], a or 'top', b or 'top') for t, a, b in moved)))
             return out
+    # L: the constant a flag / attribute is set to was replaced (by another constant or by an
+    # expression), or an expression was replaced by a constant
+    if len(ref['stmts']) == len(cur['stmts']) and same['compound']:
+        pos = _diff_positions(ref['stmts'], cur['stmts'])
+        if len(pos) == 1:
+            a, b = ref['stmts'][pos[0]], cur['stmts'][pos[0]]
+            try:
+                sa, sb = ast.parse(a).body[0], ast.parse(b).body[0]
+            except (SyntaxError, IndexError):
+                sa = sb = None
+            if isinstance(sa, ast.Assign) and isinstance(sb, ast.Assign) and \
+                    [unparse(t) for t in sa.targets] == [unparse(t) for t in sb.targets] and \
+                    (isinstance(sa.value, ast.Constant) or isinstance(sb.value, ast.Constant)) and \
+                    not (isinstance(sa.value, ast.Constant) and isinstance(sa.value.value, str) and
+                         isinstance(sb.value, ast.Constant) and isinstance(sb.value.value, str)):
+                out.append(('assigned constant replaced', '%s -> %s' % (a[:80], b[:80])))
+                return out
     # D: constant changed
     if not same['consts'] and len(ref['consts']) == len(cur['consts']) and same['attrs'] and \
             same['names'] and same['compound'] and len(ref['stmts']) == len(cur['stmts']):
